@@ -91,4 +91,19 @@ CHECKS.update({
                 text='All multisets of 1..2 (quick) / 3 (thorough) rows; 41 shapes: 1-3 CTEs referenced 1-3 times in FROM, IN/EXISTS/scalar subqueries and UNION branches, chains, nested WITH re-using a name at every nesting position, CTE names equal to table names; production vs. every reference inlined.',
                 note='SQLite implements lexical CTE scoping; the known name-keyed scoping finding is matched against explicit one-body variants.'),
 })
+E5 = 'distdiff (qe-driver dist op: real coordinator + in-process FragmentTransport)'
+CHECKS.update({
+    'C09': dict(category='exploration', engine=E5, design='3/C09',
+                technique='bounded-exhaustive enumeration of statements x Parquet layouts x cluster shapes, distributed vs single-node differential',
+                text='~110 statements covering Concat/TwoPhase/TopN/Gather and refusals over fact tables (8-row with NULL/duplicate keys, empty, 1-2 rows) in 3 (quick) / 6 (thorough) file x row-group layouts, cluster sizes 1,2,3,8 with the initiator first and last (quick) / 1..8 (thorough); execute_any_distributed must equal ctx.sql on the same context.',
+                note='Transport is the in-process FragmentTransport over the real execute_fragment/encode_ipc/decode_ipc; sockets are C16/C34/C35.'),
+    'C10': dict(category='fault_enumeration', engine=E5, design='3/C10',
+                technique='exhaustive fault-placement enumeration on the fragment transport (every truncation offset, every metadata byte flip, error kinds, placements)',
+                text='For scatter and gather statements on 3-node (quick) / 3- and 4-node (thorough) clusters: per remote shard a transport error, HTTP 500, altered digest, misreported row count, truncation at every byte, XOR of every framing/metadata byte; thorough adds all pairs and all shards. The query must fail, or return exactly the fault-free answer where the fault cannot change the decoded batches.',
+                note='Body-buffer corruption is undetectable without checksums and excluded; two known findings (abort on corrupt metadata, value-changing metadata flips) are listed.'),
+    'C45': dict(category='exploration', engine=E5, design='3/C45',
+                technique='bounded-exhaustive enumeration of statements where each column is read in exactly one syntactic position, plan inspection + distributed vs single-node differential',
+                text='15 templates x every ordered pair of three 4-column tables x 8 (quick) / 24 (thorough) column permutations: plan_gather must list every table and column the statement mentions (for statements that take the gather path) and the distributed run must bind and equal ctx.sql.',
+                note='The label "columns the statement mentions" comes from the generator; over-gathering is accepted.'),
+})
 PENDING_REASON = 'check not built yet in this round (planned in DESIGN.md section 3); not claimed until it exists'
